@@ -22,6 +22,8 @@ type casSite struct {
 	fn     *ssa.Function
 	cmp    *ssa.BinOp
 	stored string // description of the stored side
+	exp    ssa.Value // caller-supplied expected index
+	row    ssa.Value // stored-side value (a field load from the row, a helper result, a table index)
 }
 
 func isUint(t types.Type) bool {
@@ -107,7 +109,7 @@ func discoverCAS(p *core.Program) []casSite {
 						if len(pa.Fields) > 0 {
 							exp += "." + strings.Join(pa.Fields, ".")
 						}
-						out = append(out, casSite{fn: f, cmp: cmp, stored: exp + "~" + desc})
+						out = append(out, casSite{fn: f, cmp: cmp, stored: exp + "~" + desc, exp: pair[0], row: pair[1]})
 						break
 					}
 				}
@@ -256,6 +258,18 @@ func runC10(c *Ctx) {
 	}
 	sort.Strings(discovered)
 	r.Analysed["cas_functions"] = discovered
+
+	// ---- C10.6: an absent row matches only the expected index zero. With the
+	// edges "row is non-nil" and "expected == 0" removed, no write may remain
+	// reachable from the function entry.
+	for _, s := range sites {
+		ra := core.AccessOf(s.row)
+		if len(ra.Fields) == 0 || ra.LastField() != "ModifyIndex" {
+			continue // table index / helper-folded comparison: absence is not a separate case
+		}
+		checkAbsentRowNeedsZero(c, s, ra)
+	}
+	r.Floor("C10.6", 10)
 
 	// ---- C10.1b: inside a CAS function that reports a boolean, `true` is only
 	// returned after a write on every path (no "applied" report from any of the
@@ -410,6 +424,159 @@ func runC10(c *Ctx) {
 	checkCompositeCA(c)
 	// ---- C10.5
 	checkLeaderTrustsBool(c)
+}
+
+func accessString(a core.Access) string {
+	n := "?"
+	if a.Root != nil {
+		n = a.Root.Name()
+	}
+	return n + "." + strings.Join(a.Fields, ".")
+}
+
+func checkAbsentRowNeedsZero(c *Ctx, s casSite, ra core.Access) {
+	p, r := c.P, c.R
+	f := s.fn
+	construct := core.FuncName(f) + "/" + s.stored
+	pos := p.Pos(s.cmp.Pos())
+	// the row: look through accessor methods (existing.(T).GetRaftIndex()) to the looked-up object
+	rowRootOf := func(v ssa.Value) ssa.Value {
+		for i := 0; i < 6; i++ {
+			a := core.AccessOf(v)
+			call, ok := a.Root.(*ssa.Call)
+			if ok && call.Call.IsInvoke() && len(call.Call.Args) == 0 {
+				v = call.Call.Value
+				continue
+			}
+			if ok && !call.Call.IsInvoke() && call.Call.StaticCallee() != nil && call.Call.StaticCallee().Signature.Recv() != nil && len(call.Call.Args) == 1 && core.AsMemdbOp(call) == nil {
+				v = call.Call.Args[0]
+				continue
+			}
+			return a.Root
+		}
+		return nil
+	}
+	root := rowRootOf(s.row)
+	isAlias := func(v ssa.Value) bool {
+		if v == root {
+			return true
+		}
+		a := core.AccessOf(v)
+		return len(a.Fields) == 0 && a.Root == root
+	}
+	cut := map[core.Edge]bool{}
+	classified := map[core.Edge]bool{} // edges of row-nil / expected-zero tests (either direction)
+	expKey := accessString(core.AccessOf(s.exp))
+	nNilTests := 0
+	for _, b := range f.Blocks {
+		for _, in := range b.Instrs {
+			switch x := in.(type) {
+			case *ssa.BinOp:
+				if x.Op != token.EQL && x.Op != token.NEQ {
+					continue
+				}
+				te, fe := core.CondEdges(x)
+				// nil tests on the row
+				var other ssa.Value
+				if core.IsNilConst(x.Y) {
+					other = x.X
+				} else if core.IsNilConst(x.X) {
+					other = x.Y
+				}
+				if other != nil && isAlias(other) {
+					nNilTests++
+					nonNil := te
+					if x.Op == token.EQL {
+						nonNil = fe
+					}
+					for _, e := range nonNil {
+						cut[e] = true
+					}
+					for _, e := range append(append([]core.Edge{}, te...), fe...) {
+						classified[e] = true
+					}
+					continue
+				}
+				// expected == 0 tests
+				var o2 ssa.Value
+				if k, ok := core.ConstInt(x.Y); ok && k == 0 {
+					o2 = x.X
+				} else if k, ok := core.ConstInt(x.X); ok && k == 0 {
+					o2 = x.Y
+				}
+				if o2 != nil && accessString(core.AccessOf(o2)) == expKey {
+					zero := te
+					if x.Op == token.NEQ {
+						zero = fe
+					}
+					for _, e := range zero {
+						cut[e] = true
+					}
+					for _, e := range append(append([]core.Edge{}, te...), fe...) {
+						classified[e] = true
+					}
+				}
+			case *ssa.Extract:
+				// comma-ok type assertion on the row: ok ⇒ non-nil
+				if ta, ok := x.Tuple.(*ssa.TypeAssert); ok && x.Index == 1 && isAlias(ta.X) {
+					nNilTests++
+					te, fe := core.CondEdges(x)
+					for _, e := range te {
+						cut[e] = true
+					}
+					for _, e := range append(append([]core.Edge{}, te...), fe...) {
+						classified[e] = true
+					}
+				}
+			}
+		}
+	}
+	// mode flags: a branch edge that dominates the comparison and is neither a
+	// row-nil nor an expected-zero test selects "conditional mode" (opts.CAS);
+	// its sibling edge leaves that mode and is outside this rule.
+	for _, b := range f.Blocks {
+		if len(b.Instrs) == 0 {
+			continue
+		}
+		if _, ok := b.Instrs[len(b.Instrs)-1].(*ssa.If); !ok {
+			continue
+		}
+		for si := range b.Succs {
+			e := core.Edge{From: b, Succ: si}
+			if classified[e] || b.Succs[0] == b.Succs[1] {
+				continue
+			}
+			if core.EdgeDominates(b, si, s.cmp.Block()) {
+				cut[core.Edge{From: b, Succ: 1 - si}] = true
+			}
+		}
+	}
+	var hit ssa.Instruction
+	w := &core.Walk{
+		Cut: func(b *ssa.BasicBlock, si int) bool { return cut[core.Edge{From: b, Succ: si}] },
+		Visit: func(in ssa.Instruction) {
+			if hit != nil {
+				return
+			}
+			if op := core.AsMemdbOp(in); op != nil {
+				if op.IsWrite() {
+					hit = in
+				}
+				return
+			}
+			if ci, ok := in.(ssa.CallInstruction); ok {
+				if g := ci.Common().StaticCallee(); g != nil && mayWrite(p, g) {
+					hit = in
+				}
+			}
+		},
+	}
+	w.FromEntry(f)
+	if hit != nil {
+		r.Violate("C10.6", construct, pos, fmt.Sprintf("the write at %s is reachable with the row absent and a non-zero expected index: a conditional write against a deleted object is applied", p.Pos(hit.Pos())), w.PathTo(p, hit.Block())...)
+	} else {
+		r.Hold("C10.6", construct, pos, fmt.Sprintf("with the row absent every path to a write requires expected == 0 (%d nil tests on the row)", nNilTests))
+	}
 }
 
 func condEdgesOf(c ssa.Value) (t, f []core.Edge) {
